@@ -5,7 +5,8 @@ from .. import engine as E
 from .. import catalogue as K
 from .. import speccheck as S
 
-THEOREMS = ["c06_array_arity", "c06_tuple2_arity", "c06_tuple3_arity", "c06_option_null", "c06_option_some", "c06_box", "c06_vec_elements", "c06_vec_length", "c06_map_bad_key_fails"]
+THEOREMS = ["c06_array_arity", "c06_tuple2_arity", "c06_tuple3_arity", "c06_option_null", "c06_option_some", "c06_box", "c06_vec_elements", "c06_vec_length", "c06_map_bad_key_fails",
+            "c06_set_value", "c06_map_value", "c06_set_members", "c06_set_distinct", "c06_set_covers", "c06_map_insert_same", "c06_map_insert_other"]
 
 
 def run(ctx, H):
